@@ -118,6 +118,17 @@ func genDigits(t *rapid.T, n int) *big.Int {
 		first = false
 		left -= run
 	}
+	if n >= 35 && c.Cmp(ref.Cmax) > 0 {
+		// a 35-digit string above Cmax: clear the leading digit's excess so that the digit pattern survives
+		c.Sub(c, new(big.Int).Mul(new(big.Int).Quo(c, ref.Pow10(34)), ref.Pow10(34)))
+		c.Add(c, ref.Pow10(34))
+		if c.Cmp(ref.Cmax) > 0 {
+			c.Sub(c, new(big.Int).Mul(bi(2), ref.Pow10(33))) // 12.. -> 10.. keeps it below 1.298e34
+			if c.Cmp(ref.Cmax) > 0 {
+				c = capCoef(c)
+			}
+		}
+	}
 	return c
 }
 
@@ -367,4 +378,27 @@ func ubytes(t *rapid.T, n int, label string) []byte {
 		}
 	}
 	return out[:n]
+}
+
+// isNearTie: the discarded part differs from one half of the quantum 10^e by
+// less than 1e-6 of the quantum (but is not a tie).
+func isNearTie(x ref.X, e int) bool {
+	// frac = x/10^e - floor; compare |frac - 1/2| < 1e-6  <=>  |2*rem*10^6 - den*10^6| < 2*den
+	num, den := x.Num, x.Den
+	shift := e - x.Exp
+	n, d := num, den
+	if shift > 0 {
+		d = new(big.Int).Mul(den, ref.Pow10(shift))
+	} else if shift < 0 {
+		n = new(big.Int).Mul(num, ref.Pow10(-shift))
+	}
+	rem := new(big.Int).Rem(n, d)
+	rem.Lsh(rem, 1)
+	rem.Sub(rem, d)
+	rem.Abs(rem)
+	if rem.Sign() == 0 {
+		return false
+	}
+	rem.Mul(rem, big.NewInt(500000))
+	return rem.Cmp(d) < 0
 }
